@@ -144,8 +144,11 @@ static void in_parts(i32* p){ for (int j = 0; j < MAXI; j++){ p[3*j] = in_i32(-(
 static int fam_kinds(int* kinds){ const char* d = STR(FAM); int ni = (int)sizeof(STR(FAM)) - 1; for (int j = 0; j < MAXI; j++) kinds[j] = j < ni ? (d[j] == 'i' ? 0 : d[j] == 's' ? 1 : 2) : 0; return ni; }
 #define FSHAPE CAT(CAT(CAT(k_fshape,DIM),_),FAM)
 #define FINDEX CAT(CAT(CAT(k_findex,DIM),_),FAM)
-#define DSHAPE CAT(k_dynshape,DIM)
-#define DINDEX CAT(k_dynindex,DIM)
+#ifndef LISTK
+#define LISTK
+#endif
+#define DSHAPE CAT(CAT(k_dynshape,DIM),LISTK)
+#define DINDEX CAT(CAT(k_dynindex,DIM),LISTK)
 
 void h_fam(void){
   u64 shape[3] = {1,1,1}, idx[3] = {0,0,0}, os[3] = {0,0,0}, src[3] = {0,0,0}; i32 p[3*MAXI]; int kinds[MAXI];
